@@ -208,4 +208,24 @@ PROPS = {
         unverified=['ExternalValue / ConstExprIdent lookup arms', 'compile_with_constants (const_deps, const_sizes, error reporting)',
                     'const definition checking in check.rs', 'truncation of the 64-bit result to the declared width (unsigned_to_bits, see C09)'],
     ),
+    'C10': dict(
+        units=['regalloc'],
+        deps=[],
+        witness=['c10', '--depth', '2', '--random', '100000'],
+        witness_thorough=['c10', '--depth', '3', '--random', '2000000'],
+        level='proof',
+        technique='Verus contract + allocator invariant on the real RegisterAllocator::find_out_reg; bounded differential check of the whole conversion on the real code',
+        claim='Deductive proof (Verus/Z3), for every allocator state satisfying the invariant (live wires in pairwise different registers, free list '
+              'duplicate-free and disjoint from live registers, all registers below next_reg): find_out_reg re-establishes the invariant, returns a '
+              'register that no live wire occupies and that is not on the free list (never clobbers a live value), allocates at most one new '
+              'register, unmaps exactly the operands that die at this gate and leaves every other mapping unchanged; the unreachable! is '
+              'unreachable. last_use_map and the conversion loop (impl Iterator over wires()) are NOT under contract: the end-to-end statement '
+              '(validates, same outputs on every input, inputs loaded in order, only written registers read, registers <= wires, same AND '
+              'count) is checked by a bounded differential (every valid SSA circuit with <= 2 (quick) / 3 (thorough) gates over 5 party '
+              'shapes and all single/double outputs, random circuits up to 13 gates with repeated operands and input/repeated outputs, '
+              'compiled programs with de-duplication on and off).',
+        note='Trusted: vstd HashMap/Vec specifications; next_reg < u32::MAX is a precondition (not checked by the caller). Bounded part labelled bounded.',
+        title='register conversion: the register-reuse decision never clobbers a live value (proved); whole conversion equivalent and safe (bounded differential)',
+        unverified=['last_use_map', 'RegisterAllocator::convert_circuit loop', 'register_circuit::Circuit::validate / eval (see C16)'],
+    ),
 }
